@@ -174,10 +174,67 @@ func init() {
 					})
 				}
 			}
+			// helpers that exist only for format-preserving mode without testing the flag themselves:
+			// unexported, never used as a value, and every call site lies in a format-only region
+			// (an `if p.preserveFormat` body, or the body of a format-only helper).  Their whole
+			// body is a format-only region; the value they return stays inside one.
+			inferred := map[*types.Func]bool{}
+			type span struct{ lo, hi token.Pos }
+			regionSpans := func() []span {
+				var out []span
+				for _, u := range units {
+					if formatOnly[u.Obj] || inferred[u.Obj] {
+						out = append(out, span{u.Decl.Body.Pos(), u.Decl.Body.End()})
+						continue
+					}
+					info := u.Pkg.TypesInfo
+					ast.Inspect(u.Decl.Body, func(n ast.Node) bool {
+						if is, ok := n.(*ast.IfStmt); ok && mentionsPF(info, is.Cond, true) {
+							out = append(out, span{is.Body.Pos(), is.Body.End()})
+						}
+						return true
+					})
+				}
+				return out
+			}
+			for changed := true; changed; {
+				changed = false
+				spans := regionSpans()
+				for _, u := range units {
+					if formatOnly[u.Obj] || inferred[u.Obj] || u.Obj.Exported() {
+						continue
+					}
+					sites, refs := c.CallsTo(func(p string) bool { return true }, u.Obj)
+					if len(sites) == 0 || len(refs) != 0 {
+						continue
+					}
+					all := true
+					for _, st := range sites {
+						in := false
+						for _, sp := range spans {
+							if st.Call.Pos() >= sp.lo && st.Call.End() <= sp.hi {
+								in = true
+							}
+						}
+						if !in {
+							all = false
+						}
+					}
+					if all {
+						inferred[u.Obj] = true
+						formatOnly[u.Obj] = true
+						changed = true
+					}
+				}
+			}
 			for _, u := range units {
 				info := u.Pkg.TypesInfo
 				ord := &ordinal{}
 				voidFn := u.Obj.Type().(*types.Signature).Results().Len() == 0
+				if inferred[u.Obj] {
+					checkRegion(u, u.Decl.Body.List, "format-only helper", ord, true)
+					continue
+				}
 				if formatOnly[u.Obj] {
 					// whole body after the guard
 					start := 1
